@@ -82,10 +82,18 @@ def _run(tape, clock):
         for o_ in spec.outputs:
             o_.fail_on_missing = tape.draw(2) == 0
             o_.default_result = ('default', o_.alias)
+    worker_after_switch = False
     if tape.draw(8) == 7:
         # recording is switched off mid-operation (a kill switch): interceptions after it cannot be captured
-        spec.body.insert(tape.draw(len(spec.body) + 1), ['disable'])
+        pos_d = tape.draw(len(spec.body) + 1)
+        spec.body.insert(pos_d, ['disable'])
         placed.append('disable')
+        tail = spec.body[pos_d + 1:]
+        if tape.draw(3) == 2 and tail and all(st_[0] in ('in', 'out') and st_[4] is None for st_ in tail):
+            # ... and what follows the switch runs on a (joined) worker thread of the operation
+            spec.body = spec.body[:pos_d + 1] + [['spawn', [spec.body[pos_d + 1:]], False]]
+            worker_after_switch = True
+            run.probe('interception_on_a_worker_thread_after_the_switch')
     store = C.gen_store(tape, clock)
     for line in spec.describe():
         run.say(line)
@@ -97,7 +105,11 @@ def _run(tape, clock):
         recorder = TapeRecorder(spy)
         rng = R.ScriptedRandom([samp[2]] if samp[2] is not None else [], default=0.5)
         recorder._random = rng
-        rec = R.record_once(spec, run, spy, recorder=recorder)
+        if worker_after_switch:
+            from props.c09 import real_thread_factory
+            rec = R.record_once(spec, run, spy, recorder=recorder, thread_factory=real_thread_factory)
+        else:
+            rec = R.record_once(spec, run, spy, recorder=recorder)
         calls = spy.mutations()
         run.say('operation: %r; cassette calls: %s' % (rec.outcome, calls))
         run.ev('calls', rec.outcome.canon(), calls)
